@@ -19,7 +19,9 @@ def main():
     for d in sys.argv[1:]:
         d = os.path.abspath(d)
         reset()
-        demo = os.path.join(d, "demo.sh")
+        # demos locate the tree either by cwd or relative to their own path (<tree>/out/m/demo.sh)
+        sh(f"rm -rf {WT}/out && mkdir -p {WT}/out && cp -r {d} {WT}/out/m")
+        demo = os.path.join(WT, "out", "m", "demo.sh")
         r0 = sh(f"bash {demo}")
         a = sh(f"git apply {d}/patch.diff")
         if a.returncode:
@@ -31,6 +33,7 @@ def main():
                    "demo_patched_rc": r1.returncode, "demo_patched_output": r1.stdout[-600:],
                    "ok": r0.returncode == 0 and r1.returncode not in (0, 99) and t.stdout.strip().endswith(" 0") and not t.stdout.strip().startswith("0")}
         reset()
+        sh(f"rm -rf {WT}/out")
         mp = os.path.join(d, "meta.json")
         m = json.load(open(mp)) if os.path.exists(mp) else {}
         m["confirmed"] = res
